@@ -1,6 +1,8 @@
 package main
 
 import (
+	"io/ioutil"
+	"log"
 	"math"
 	"fmt"
 	"sort"
@@ -318,13 +320,22 @@ func c16Case(r *obs.Run, i int) {
 	for _, order := range orders {
 		r.Count("insertion_orders", 1)
 		p := pals.NewPiler(0)
+		if rng.Intn(3) == 0 { // progress logging switched on, at any frequency (0 = never)
+			p.Logger = log.New(ioutil.Discard, "", 0)
+			p.LogFreq = []int{0, 1, 2, 7, 1000}[rng.Intn(5)]
+			r.Count("pilers_with_a_logger", 1)
+		}
 		feats := map[*pals.Feature]string{}
 		mateOf := map[*pals.Feature]*pals.Feature{}
+		variant := false // duplicates may carry other names and another score: the pair is the same pair of intervals
 		mk := func(idx int, swap bool) *pals.Pair {
 			q := pairs[idx]
 			fa := &pals.Feature{ID: c16Name(coordIDs, idx, 'A', q.A), From: q.A.S, To: q.A.E, Loc: contigs[q.A.Loc]}
 			fb := &pals.Feature{ID: c16Name(coordIDs, idx, 'B', q.B), From: q.B.S, To: q.B.E, Loc: contigs[q.B.Loc]}
 			fp := &pals.Pair{A: fa, B: fb, Score: q.Score}
+			if variant {
+				fa.ID, fb.ID, fp.Score = "again-"+fa.ID, string(contigs[q.B.Loc]), q.Score+1+rng.Intn(5)
+			}
 			if swap {
 				fp.A, fp.B = fb, fa
 			}
@@ -350,7 +361,10 @@ func c16Case(r *obs.Run, i int) {
 				_ = prev
 				dupIdx := order[rng.Intn(len(added))]
 				for _, sw := range []bool{false, true} {
-					if err := p.Add(mk(dupIdx, sw)); err == nil {
+					variant = rng.Intn(2) == 0
+					dup := mk(dupIdx, sw)
+					variant = false
+					if err := p.Add(dup); err == nil {
 						fail("duplicate-accepted", fmt.Sprintf("Add accepted pair %v a second time (swapped=%v)", pairs[dupIdx], sw), order)
 						return
 					}
@@ -466,6 +480,18 @@ func c16Case(r *obs.Run, i int) {
 				}
 				r.Count("pile_slices_rewritten_by_the_caller", 1)
 			}
+		}
+		// the same pair offered again after Piles has run (a fresh object, located on the contigs) is still a duplicate
+		if len(added) > 0 && rng.Intn(2) == 0 {
+			dupIdx := order[rng.Intn(len(order))]
+			variant = rng.Intn(2) == 0
+			dup := mk(dupIdx, rng.Intn(2) == 0)
+			variant = false
+			if err := p.Add(dup); err == nil {
+				fail("duplicate-accepted", fmt.Sprintf("after Piles, Add accepted pair %v a second time", pairs[dupIdx]), order)
+				return
+			}
+			r.Count("duplicates_rejected_after_piles", 1)
 		}
 		// every added feature: location is a pile (even if filtered out), mates intact
 		for _, fp := range added {
